@@ -80,10 +80,12 @@ fn cuts_for(len: u64, img: &[u8]) -> Vec<u64> {
             }
         }
         if n.depth == 0 && n.is(b"mdat") {
+            // every 61st byte of the media data; about 1 500 cuts for very large media data
+            let step = 61u64.max((b - a) / 1500) | 1;
             let mut x = a;
             while x < b.min(len) {
                 set.insert(x);
-                x += 61;
+                x += step;
             }
         }
     }
@@ -224,7 +226,7 @@ impl Prop for C11 {
     }
     fn gen(seed: u64, idx: u64, tier: Tier) -> CutCase {
         let mut r = Rng::new(seed);
-        let class = if idx < 19 { idx } else { 3 + r.below(9) };
+        let class = if idx < 20 { idx } else { 3 + r.below(9) };
         let spec = match class {
             0 => SeedSpec::Canned("minimal.mp4".into()),
             1 => SeedSpec::CannedFrag,
@@ -238,6 +240,8 @@ impl Prop for C11 {
             // every table of the last track in turn as the final box of the file
             11 => SeedSpec::MuxRotated { seed: r.below(1 << 20), k: r.below(8) as u8 },
             12..=18 => SeedSpec::MuxRotated { seed: 7 + idx, k: (idx - 12) as u8 },
+            // movie header first, one sample of more than a MiB among small ones
+            19 => SeedSpec::BigSample { seed: r.below(1 << 20) },
             _ => {
                 if (tier == Tier::Thorough && r.chance(1, 40)) || idx == 9 {
                     SeedSpec::Canned("big_buck_bunny_metadata.m4v".into())
@@ -389,7 +393,7 @@ impl Prop for C11 {
         false
     }
     fn mandatory_probes(_t: Tier) -> Vec<&'static str> {
-        vec!["probe.some_cut_opened", "image.canned_frag", "image.mux_reloc", "image.frag", "image.meta", "image.hybrid", "image.mux_rotated"]
+        vec!["probe.some_cut_opened", "image.canned_frag", "image.mux_reloc", "image.frag", "image.meta", "image.hybrid", "image.mux_rotated", "image.big_sample"]
     }
 }
 
